@@ -183,7 +183,12 @@ def scenarios(draw):
     return sc
 
 
-def check_table(kind, rows, feats, sim, rec, ctx, case, grouped_rows=None):
+def check_table(kind, rows, feats, sim, rec, ctx, case, grouped_rows=None, crossing=()):
+    def suffix(k):
+        # root cause of a known finding: a read that crosses a split point of its cluster is processed in both
+        # sub-regions, each with its own gene set (and may be kept twice)
+        return ":read-crossing-a-split-point" if any(c == k[0] and a <= k[2] and b >= k[1] for c, a, b in crossing) \
+            else ""
     seen = {}
     nontrivial = False
     for r in rows:
@@ -192,14 +197,14 @@ def check_table(kind, rows, feats, sim, rec, ctx, case, grouped_rows=None):
             ctx.violation("C13:%s-row-not-in-annotation" % kind, {"row": r["raw"]}, case)
             continue
         if set(r["strand"]) != feats[k]["strands"]:
-            ctx.violation("C13:%s-row-strand-differs" % kind, {"row": r["raw"], "expected": sorted(feats[k]["strands"])},
-                          case)
+            ctx.violation("C13:%s-row-strand-differs%s" % (kind, suffix(k)),
+                          {"row": r["raw"], "expected": sorted(feats[k]["strands"])}, case)
         if set(r["genes"].split(",")) != feats[k]["genes"]:
-            ctx.violation("C13:%s-row-gene-list-differs" % kind, {"row": r["raw"], "expected": sorted(feats[k]["genes"])},
-                          case)
+            ctx.violation("C13:%s-row-gene-list-differs%s" % (kind, suffix(k)),
+                          {"row": r["raw"], "expected": sorted(feats[k]["genes"])}, case)
         gk = (k, r["group"])
         if gk in seen:
-            ctx.violation("C13:duplicate-%s-row" % kind, {"rows": [seen[gk]["raw"], r["raw"]]}, case)
+            ctx.violation("C13:duplicate-%s-row%s" % (kind, suffix(k)), {"rows": [seen[gk]["raw"], r["raw"]]}, case)
         seen[gk] = r
     # recount comparison (sum duplicates so that the count oracle is independent of the duplicate-row oracle)
     got = defaultdict(lambda: [0, 0])
@@ -216,10 +221,10 @@ def check_table(kind, rows, feats, sim, rec, ctx, case, grouped_rows=None):
         if ig or eg:
             ctx.grey += 1
         if not (im <= gi <= im + ig):
-            ctx.violation("C13:%s-include-count-differs" % kind,
+            ctx.violation("C13:%s-include-count-differs%s" % (kind, suffix(k)),
                           {"feature": k, "group": g, "table": gi, "recount_must": im, "recount_grey": ig}, case)
         if not (em <= ge <= em + eg):
-            ctx.violation("C13:%s-exclude-count-differs" % kind,
+            ctx.violation("C13:%s-exclude-count-differs%s" % (kind, suffix(k)),
                           {"feature": k, "group": g, "table": ge, "recount_must": em, "recount_grey": eg}, case)
         if gi > 0 and ge > 0:
             nontrivial = True
@@ -245,9 +250,20 @@ def evaluate(case, ctx):
         exf, inf = annotated_features(sc)
         sim_e, sim_i = similar(exf, delta), similar(inf, delta)
         nt = False
+        crossing = []
+        if sc.get("split_locus"):
+            import os
+            regions = parse.log_regions(os.path.join(res.out, "isoquant.log"))
+            cuts = sorted(set(b for a, b in regions))
+            for r in sc["reads"]:
+                if r.get("c") is None:
+                    continue
+                a, b = r["p"] + 1, R.ref_end_of(r)
+                if any(a <= c <= b - 1 for c in cuts):
+                    crossing.append((r["c"], a, b))
         for kind, feats, sim, path in (("exon", exf, sim_e, ep), ("intron", inf, sim_i, ip)):
             rec = recount(records_ungrouped, feats, sim, delta, kind)
-            nt |= check_table(kind, parse.feature_counts(path), feats, sim, rec, ctx, case)
+            nt |= check_table(kind, parse.feature_counts(path), feats, sim, rec, ctx, case, crossing=crossing)
         if sc["grouped"]:
             gep, gip = res.path("exon_grouped_counts.tsv"), res.path("intron_grouped_counts.tsv")
             if not gep or not gip:
@@ -279,6 +295,32 @@ def evaluate(case, ctx):
         res.cleanup()
 
 
+@st.composite
+def split_scenarios(draw):
+    """Loci cut into several processing regions (templates of C05): pile-ups of different genes joined by bridging
+    reads, long sparse genes, a gene across a split point."""
+    rnd = draw(st.randoms(use_true_random=True))
+    src = S.RndSrc(rnd)
+    tmpl = draw(st.sampled_from(["pileups", "long_gene", "straddle", "inner_bridge", "inner_bridge"]))
+    if tmpl == "pileups":
+        sc = S.gen_deep_locus(src, with_annotation=True, max_reads=500, extra_chrom=False)
+    elif tmpl == "inner_bridge":
+        sc = S.gen_long_gene_locus(src, with_annotation=True, inner_bridge=True)
+    else:
+        sc = S.gen_long_gene_locus(src, with_annotation=True, straddle=tmpl == "straddle")
+    dt = draw(st.sampled_from(["nanopore", "pacbio_ccs"]))
+    sc["opts"] = ["--data_type", dt, "--no_gzip", "--threads", "1", "--count_exons", "--no_model_construction",
+                  "--debug"]
+    if draw(st.booleans()):
+        sc["opts"] += ["--high_memory"]
+    sc["delta"] = S.DELTAS[S.DATA_DEFAULT_STRATEGY[dt]]
+    sc["grouped"] = False
+    sc["split_locus"] = True
+    sc["template"] = tmpl
+    return sc
+
+
 def stages(tier):
     q = tier == "quick"
-    return [Stage("counts", "hyp", evaluate, n=224 if q else 3000, strategy=scenarios)]
+    return [Stage("counts", "hyp", evaluate, n=224 if q else 3000, strategy=scenarios),
+            Stage("split", "hyp", evaluate, n=48 if q else 600, strategy=split_scenarios)]
